@@ -49,12 +49,12 @@ SIG_SPEC = "stats:counts-spec"
 
 def rules_term():
     """which rules L2 compares against: the Coq definition `current_rules`, or WHVERIF_C12_RULES =
-    comma list out of {skip_missing_gt, ps_missing_zero} (used to check a patched scratch worktree)."""
+    comma list out of {skip_missing_gt, ps_missing_unphased} (used to check a patched scratch worktree)."""
     v = os.environ.get("WHVERIF_C12_RULES")
     if v is None:
         return "current_rules"
     fl = [x.strip() for x in v.split(",") if x.strip()]
-    return f"(mkRules {'true' if 'skip_missing_gt' in fl else 'false'} {'true' if 'ps_missing_zero' in fl else 'false'})"
+    return f"(mkRules {'true' if 'skip_missing_gt' in fl else 'false'} {'true' if 'ps_missing_unphased' in fl else 'false'})"
 
 
 def l1_fn():
@@ -160,25 +160,35 @@ def oracle_fails(res):
     return not G.oracle_l1(bool(res["case"].get("only_snvs")), res["groups"], res["given"], res["ids"], res["out"])
 
 
-def classify(ctx, res, wd, tag):
-    """signatures explaining an L1 failure, by re-running the real code on reduced inputs:
-    which class of records has to be removed for the failure to disappear."""
-    if res["rc"] != 0 and "'NoneType' object has no attribute 'split'" in res["stderr"]:
-        return [SIG_HP], None
-    has_f4 = any(G.missing_gt(r) for _, recs in res["groups"] for r in recs)
-    has_ps = any(G.ps_missing_phased(r) for _, recs in res["groups"] for r in recs)
-    trials = []
-    if has_f4:
-        trials.append(([SIG_F4], G.missing_gt))
-    if has_ps:
-        trials.append(([SIG_PS], G.ps_missing_phased))
-    if has_f4 and has_ps:
-        trials.append(([SIG_F4, SIG_PS], lambda r: G.missing_gt(r) or G.ps_missing_phased(r)))
-    for k, (sigs, pred) in enumerate(trials):
-        red = run_case(ctx, reduced_case(res, pred), wd, f"{tag}r{k}")
-        if not oracle_fails(red):
-            return sigs, red
-    return [SIG_CRASH if res["rc"] != 0 else SIG_SPEC], None
+def model_eq_fn(skip_missing_gt, ps_missing_unphased):
+    r = f"(mkRules {'true' if skip_missing_gt else 'false'} {'true' if ps_missing_unphased else 'false'})"
+    return ("fun c => match c with (opts, header, groups, given, out) => "
+            f"ooutput_eqb (run_stats {r} (fst opts) (snd opts) header groups given) out end")
+
+
+def classify_batch(name, results):
+    """signatures of L1-failing cases, decided in Coq: a failure belongs to a recorded defect class iff the
+    implementation's complete output is exactly what the model predicts with only that defective rule switched on
+    (everything else repaired). Anything the defective rules do not explain gets a generic signature."""
+    if not results:
+        return []
+    fns = {"F4": model_eq_fn(False, True), "PS": model_eq_fn(True, False), "BOTH": model_eq_fn(False, False)}
+    failing, errors = eval_checks(name, HEADER, fns, [res_term(r) for r in results], shard=60)
+    if errors:
+        raise RuntimeError("coq evaluation failed: " + errors[0][1])
+    out = []
+    for i, r in enumerate(results):
+        if r["rc"] != 0 and "'NoneType' object has no attribute 'split'" in r["stderr"]:
+            out.append([SIG_HP])
+        elif i not in failing["F4"]:
+            out.append([SIG_F4])
+        elif i not in failing["PS"]:
+            out.append([SIG_PS])
+        elif i not in failing["BOTH"]:
+            out.append([SIG_F4, SIG_PS])
+        else:
+            out.append([SIG_CRASH if r["rc"] != 0 else SIG_SPEC])
+    return out
 
 
 def shrink_failure(ctx, res, wd, tag, sig):
@@ -241,8 +251,9 @@ def describe(res):
 WHAT = {
     SIG_F4: "calls with a missing or partially missing genotype (./., 0/., no GT) are counted as heterozygous "
             "(unphased, or phased when they carry PS/HP): reported counts differ from the independent count",
-    SIG_PS: "a phased heterozygous call whose PS is '.' gets phase-set id None: sorted() of the block ids raises "
-            "TypeError (or the block list names the set 'None')",
+    SIG_PS: "a phased heterozygous call whose PS is '.' (block id None) is put into a phase set named None instead of "
+            "being counted as unphased: sorted() of the block ids raises TypeError when another set exists, "
+            "otherwise the block list has a line 'None'",
     SIG_HP: "VcfReader._extract_HP_phase crashes on an HP value of (None,)",
     SIG_CRASH: "whatshap stats aborted on an input inside the property's domain",
     SIG_SPEC: "reported numbers / block list contradict the independent count over the file",
@@ -259,28 +270,18 @@ def check_batch(ctx, results, wd, label, report=True):
         l1.append(i)
     if report and l1:
         by_sig = {}
-        with ThreadPoolExecutor(max_workers=16) as ex:
-            cls = list(ex.map(lambda i: classify(ctx, results[i], wd, f"{label}k{i}"), l1))
-        confirm = []
-        for i, (sigs, red) in zip(l1, cls):
+        cls = classify_batch("C12" + label + "cls", [results[i] for i in l1])
+        for i, sigs in zip(l1, cls):
             for s in sigs:
                 by_sig.setdefault(s, []).append(i)
-            if red is not None:
-                confirm.append(red)
-        # the reduced inputs (offending records removed) must satisfy the specification in Coq
-        if confirm:
-            f2 = coq_eval("C12" + label + "red", confirm)
-            if f2["L1"]:
-                for j in f2["L1"]:
-                    ctx.violation(SIG_SPEC, "reduced input still fails the specification in Coq: " + describe(confirm[j])[:1500],
-                                  {"case": confirm[j]["case"]})
         for sig, idxs in sorted(by_sig.items()):
             ctx.tally("violations." + sig, len(idxs))
             first = min(idxs, key=lambda i: (results[i]["rc"] == 0, len(results[i]["case"]["vcf"])))
             small_case = shrink_failure(ctx, results[first], wd, f"{label}m{first}", sig)
             small = run_case(ctx, small_case, wd, f"{label}min{first}")
             fs = coq_eval("C12" + label + "min", [small])
-            shown = small if (fs["L1"] or sig == SIG_HP) else results[first]      # Coq confirms the minimised input
+            same = bool(fs["L1"]) and sig in classify_batch("C12" + label + "mincls", [small])[0]
+            shown = small if (same or sig == SIG_HP) else results[first]     # Coq confirms the minimised input
             ctx.violation(sig, f"{WHAT[sig]} ({len(idxs)} generated cases). Minimised: " + describe(shown)[:2500],
                           {"case": shown["case"]})
     return failing, l1
